@@ -2,6 +2,7 @@ import GnoVerif.Model.C28
 import GnoVerif.Proofs.C28NonInt
 import GnoVerif.Proofs.C28Inv
 import GnoVerif.Proofs.C28Vers
+import GnoVerif.Proofs.C28Refs
 /-!
 C28 — "Queries never interfere with consensus and see one committed version."
 
@@ -234,5 +235,66 @@ theorem query_header_counterexample : ¬ query_header_statement := by
   have h1 := h (finalOf cexHdrTrace) ⟨false, 705, false, cexHdrTrace, cexHdr_run⟩
   revert h1
   decide
+
+/-! ### snapshot lifetime: the reference counting of `refSnapshot` -/
+
+theorem reachable_rinv (s : State) (hr : Reachable s) : RInv s := by
+  rcases hr with ⟨a, k, b, tr, h⟩
+  exact rinv_run tr _ s (rinv_init a k b) h
+
+/-- A query that is still running (snapshot pinned, not yet released) never reads a closed
+snapshot, however many commits have swapped the store's own reference away meanwhile: its snapshot
+exists, is open, and is counted. -/
+theorem no_use_after_close (s : State) (hr : Reachable s) (q : Query) (hq : q ∈ s.qs.queries)
+    (hfl : q.status = .acquired ∨ q.status = .ready) (i : Nat) (hs : q.snap = some i) :
+    ∃ sn, s.qs.snaps[i]? = some sn ∧ sn.closed = false ∧ 1 ≤ sn.refs := by
+  have hi := reachable_rinv s hr
+  have hh : 1 ≤ holders s.qs.queries i := by
+    have : holdsB i q = true := by
+      rcases hfl with h | h <;> simp [holdsB, inFlightB, h, hs]
+    exact List.countP_pos_iff.mpr ⟨q, hq, this⟩
+  have hlt : i < s.qs.snaps.length := by
+    by_cases hlt : i < s.qs.snaps.length
+    · exact hlt
+    · have := hi.out i (Nat.le_of_not_lt hlt)
+      simp only [expected] at this
+      omega
+  refine ⟨s.qs.snaps[i], by simp [hlt], ?_, ?_⟩
+  · have hr' := hi.refs i s.qs.snaps[i] (by simp [hlt])
+    have hc := hi.closed i s.qs.snaps[i] (by simp [hlt])
+    simp only [expected] at hr'
+    cases hb : s.qs.snaps[i].closed with
+    | false => rfl
+    | true => have := hc.mp hb; omega
+  · have hr' := hi.refs i s.qs.snaps[i] (by simp [hlt])
+    simp only [expected] at hr'
+    omega
+
+/-- A snapshot is closed exactly when nobody references it any more: not the store
+(`querySnapshot`), not the commit thread between NewSnapshot and Swap, no running query. -/
+theorem snapshot_closed_iff_unreferenced (s : State) (hr : Reachable s) (i : Nat) (sn : Snap)
+    (h : s.qs.snaps[i]? = some sn) :
+    sn.closed = true ↔ (s.qs.cur ≠ some i ∧ s.qs.fresh ≠ some i ∧
+      ∀ q ∈ s.qs.queries, ¬ ((q.status = .acquired ∨ q.status = .ready) ∧ q.snap = some i)) := by
+  have hi := reachable_rinv s hr
+  rw [hi.closed i sn h, hi.refs i sn h]
+  simp only [expected, owner, holders]
+  constructor
+  · intro h0
+    have h1 : ¬ s.qs.cur = some i := by intro hc; simp [hc] at h0
+    have h2 : ¬ s.qs.fresh = some i := by intro hc; simp [hc] at h0
+    have h3 : List.countP (holdsB i) s.qs.queries = 0 := by omega
+    refine ⟨h1, h2, ?_⟩
+    intro q hq hcon
+    have := List.countP_eq_zero.mp h3 q hq
+    rcases hcon with ⟨hst | hst, hsn⟩ <;> simp [holdsB, inFlightB, hst, hsn] at this
+  · rintro ⟨h1, h2, h3⟩
+    have : List.countP (holdsB i) s.qs.queries = 0 := by
+      apply List.countP_eq_zero.mpr
+      intro q hq hcon
+      apply h3 q hq
+      simp only [holdsB, inFlightB, Bool.and_eq_true, Bool.or_eq_true, beq_iff_eq] at hcon
+      exact hcon
+    simp [h1, h2, this]
 
 end GnoVerif.C28
